@@ -140,6 +140,10 @@ def run(R):
     R.rule("C02-R7", "parallel execution sees its whole input: what the rayon workers of the executor iterate over reaches them from the "
                      "operator's input rows only through element-preserving steps (par_chunks / par_iter / into_par_iter ...); no "
                      "hand-computed batches, no truncating adaptor - otherwise the answer depends on the thread count")
+    R.rule("C02-R11", "no candidate plan drops a sub-plan: in every arm of the planner for an operator that has children, each candidate offered "
+                      "derives from those children (the recursively planned child, or the child itself handed to a builder). A candidate built "
+                      "from constants alone replaces the sub-plan by something else - and when the choice hangs on the optimizer's statistics "
+                      "(`fixed_graph_is_visible` reads the cached graph cardinalities), stale statistics change the answer")
     r1(R)
     r2(R)
     r3(R)
@@ -149,6 +153,7 @@ def run(R):
     r8(R)
     r9(R)
     r10(R)
+    r11(R)
 
 
 def r1(R):
@@ -714,3 +719,48 @@ def r10(R):
                  detail=None if not content else "the entry is found again for a bare occurrence of `%s` in the same query (another UNION branch, a subquery) and "
                  "brings %s along: rows are filtered / projected that must not be" % (b.local_name(keyed), content))
     R.floor("C02-R10", "plan-memo insertions", n, 3)
+
+
+def r11(R):
+    from lib import pipeline as P, guards as G
+    prog = R.prog
+    b = R.body("C02-R11", "Streamertail::find_best_plan_recursive", crate="kolibrie")
+    a = prog.adt(LOP)
+    a = a[0] if isinstance(a, list) and a else a
+    if b is None or not a:
+        return
+    # variants with children: a field whose type mentions LogicalOperator
+    child_fields = {v["name"]: [f["name"] for f in v["fields"] if "LogicalOperator" in f["ty"]] for v in a["variants"]}
+    best = None
+    for bb, t in b.terms():
+        if t["t"] != "switch":
+            continue
+        d = G.describe_discr(b, t["discr"])
+        if d.get("kind") == "discr" and d.get("adt") == LOP and (best is None or len(t["targets"]) > len(best[1]["targets"])):
+            best = (bb, t)
+    R.ob("C02-R11", "dispatch", "the planner dispatches on the logical operator", best is not None, where=b.where())
+    if best is None:
+        return
+    bb0, t0 = best
+    edges = G.edge_conditions(b, bb0)
+    pushes = [c for c in b.calls() if c.name() == "push" and len(c.args) > 1 and F.op_place(c.args[1]) is not None
+              and "PhysicalOperator" in b.local_ty(F.op_place(c.args[1])["l"]) and "Vec<" not in b.local_ty(F.op_place(c.args[1])["l"])]
+    narms = 0
+    for tgt, cd in edges:
+        v = cd.get("variant")
+        if not v or not child_fields.get(v):
+            continue
+        others = [t2 for t2, c2 in edges if t2 != tgt]
+        region = b.reach_from([tgt], avoid=set(others) | {bb0}) | {tgt}
+        mine = [c for c in pushes if c.bb in region]
+        if not mine:
+            continue
+        narms += 1
+        for c in mine:
+            d = P.derives(prog, b, F.op_place(c.args[1])["l"], at_bb=c.bb)
+            from_child = any(t[0] == "call" and t[1] == b.name for t in d) or \
+                any(t[0] == "field" and t[1].split(".")[-1] in child_fields[v] for t in d)
+            R.ob("C02-R11", "candidate-keeps-children:%s" % v, "every candidate of the %s arm is built from the operator's sub-plan(s)" % v, from_child,
+                 where=b.where(c.ln), detail=None if from_child else "this candidate derives from %s only: the sub-plan is dropped from the plan"
+                 % sorted(t[1] for t in d if t[0] == "call")[:4])
+    R.floor("C02-R11", "planner arms for operators with children that offer candidates", narms, 8)
